@@ -279,3 +279,105 @@ Proof.
     unfold parse. pose proof (fun fuel => scan_terms ts t [] _ _ fuel Hw Hr Ha) as H. cbn [app length] in H.
     rewrite E in *. cbn [tl] in H. rewrite scan_first. apply H. cbn [length]. lia.
 Qed.
+
+(* ------------------------------------------------------------------ *)
+(* from the declarative range conditions to the accumulator run *)
+
+Lemma in_i64_iff z : in_i64 z = true <-> i64_min <= z <= i64_max.
+Proof. unfold in_i64. rewrite andb_true_iff, !Z.leb_le. tauto. Qed.
+Lemma in_i32_iff z : in_i32 z = true <-> i32_min <= z <= i32_max.
+Proof. unfold in_i32. rewrite andb_true_iff, !Z.leb_le. tauto. Qed.
+
+Lemma add_i64_ok acc n k : in_i64 (n * k) = true -> in_i64 (n * k + acc) = true ->
+  add_i64 acc n k = Some (acc + n * k).
+Proof. intros H1 H2. unfold add_i64. rewrite H1, H2. f_equal. lia. Qed.
+
+Lemma add_i32_ok acc n k : in_i32 n = true -> in_i32 (n * k) = true -> in_i32 (n * k + acc) = true ->
+  add_i32 acc n k = Some (acc + n * k).
+Proof. intros H0 H1 H2. unfold add_i32. rewrite H0, H1, H2. f_equal. lia. Qed.
+
+Definition acc_plus (a : accs) (t : term) : accs :=
+  mk_accs (a_nsecs a + t_nsecs t) (a_secs a + t_secs t) (a_months a + t_months t).
+
+Lemma apply_unit_term a t :
+  term_in_range t ->
+  in_i32 (a_months a + t_months t) = true -> in_i64 (a_secs a + t_secs t) = true ->
+  in_i64 (a_nsecs a + t_nsecs t) = true ->
+  apply_unit (t_unit t) (tval t) a = Some (acc_plus a t).
+Proof.
+  intros [Hv [Hs [Hn [Hm Hmo]]]] Am As An. unfold acc_plus.
+  unfold t_months, t_secs, t_nsecs in *. destruct a as [an asx am]. cbn [a_nsecs a_secs a_months] in *.
+  destruct (t_unit t); cbn [apply_unit unit_scale a_nsecs a_secs a_months];
+    try (rewrite add_i64_ok; [cbn [option_map]; f_equal; f_equal; lia
+                             | first [exact Hs | exact Hn | rewrite Z.mul_1_r; exact Hv]
+                             | rewrite ?Z.mul_1_r, Z.add_comm; first [exact As | exact An]]);
+    try (rewrite add_i32_ok; [cbn [option_map]; f_equal; f_equal; lia
+                             | exact Hmo
+                             | first [exact Hm | rewrite Z.mul_1_r; exact Hm]
+                             | rewrite ?Z.mul_1_r, Z.add_comm; exact Am]).
+Qed.
+
+Lemma acc_terms_ok : forall ts a,
+  Forall term_in_range ts ->
+  (forall k, (k <= length ts)%nat ->
+     in_i32 (a_months a + sumf t_months (firstn k ts)) = true /\
+     in_i64 (a_secs a + sumf t_secs (firstn k ts)) = true /\
+     in_i64 (a_nsecs a + sumf t_nsecs (firstn k ts)) = true) ->
+  acc_terms a ts = Some (mk_accs (a_nsecs a + sumf t_nsecs ts) (a_secs a + sumf t_secs ts)
+                                 (a_months a + sumf t_months ts)).
+Proof.
+  induction ts as [|t ts IH]; intros a Hr Hp.
+  - cbn [acc_terms sumf fold_right]. rewrite !Z.add_0_r. destruct a; reflexivity.
+  - inversion Hr as [|? ? Ht Hr']; subst. cbn [acc_terms].
+    destruct (Hp 1%nat) as [P1 [P2 P3]]; [cbn [length]; lia|].
+    cbn [firstn sumf fold_right] in P1, P2, P3. rewrite !Z.add_0_r in P1, P2, P3.
+    rewrite (apply_unit_term a t Ht P1 P2 P3).
+    rewrite IH; [|exact Hr'|].
+    + unfold acc_plus, sumf. cbn [a_nsecs a_secs a_months fold_right]. f_equal. f_equal; lia.
+    + intros k Hk. destruct (Hp (S k)) as [Q1 [Q2 Q3]]; [cbn [length]; lia|].
+      cbn [firstn sumf fold_right] in Q1, Q2, Q3. unfold acc_plus. cbn [a_nsecs a_secs a_months].
+      rewrite <- !Z.add_assoc. auto.
+Qed.
+
+Lemma duration_new_ok s n :
+  0 <= n < giga ->
+  cr_min_secs * giga + cr_min_nanos <= s * giga + n <= cr_max_secs * giga + cr_max_nanos ->
+  duration_new s n = Some (s, n).
+Proof.
+  unfold duration_new, giga, cr_min_secs, cr_max_secs, cr_min_nanos, cr_max_nanos. intros Hn Hr.
+  destruct (Z.ltb_spec s (-9223372036854776)); [lia|].
+  destruct (Z.gtb_spec s 9223372036854775); [lia|].
+  destruct (Z.geb_spec n 1000000000); [lia|].
+  destruct (Z.eqb_spec s 9223372036854775); destruct (Z.gtb_spec n 807000000);
+    destruct (Z.eqb_spec s (-9223372036854776)); destruct (Z.ltb_spec n 193000000); cbn; try reflexivity; lia.
+Qed.
+
+Lemma finish_ok N S M :
+  - cr_max_secs <= S <= cr_max_secs ->
+  - (i64_max * 1000000) <= S * giga + N <= i64_max * 1000000 ->
+  finish (mk_accs N S M) = POk M (S * giga + N).
+Proof.
+  intros HS HT. unfold finish. cbn [a_nsecs a_secs a_months].
+  rewrite (duration_new_ok S 0);
+    [|unfold giga; lia
+     |unfold giga, cr_min_secs, cr_max_secs, cr_min_nanos, cr_max_nanos in *; lia].
+  pose proof (Z.div_mod N giga ltac:(unfold giga; lia)) as HD.
+  pose proof (Z.mod_pos_bound N giga ltac:(unfold giga; lia)) as HB.
+  cbn [Z.add]. replace (0 + N mod giga) with (N mod giga) by lia.
+  destruct (Z.geb_spec (N mod giga) giga); [lia|].
+  rewrite duration_new_ok; [f_equal; lia|exact HB|].
+  unfold giga, cr_min_secs, cr_max_secs, cr_min_nanos, cr_max_nanos, i64_max in *. lia.
+Qed.
+
+Lemma wellformed_sum ts :
+  Forall wf_term ts -> Forall term_in_range ts -> partial_sums_in_range ts -> total_in_range ts ->
+  parse (render_terms ts) = POk (sumf t_months ts) (fixed_ns ts).
+Proof.
+  intros Hw Hr Hp [HS HT].
+  assert (Hv : Forall (fun t => in_i64 (tval t) = true) ts).
+  { eapply Forall_impl; [|exact Hr]. intros t [H _]. exact H. }
+  assert (Ha : acc_terms (mk_accs 0 0 0) ts = Some (mk_accs (sumf t_nsecs ts) (sumf t_secs ts) (sumf t_months ts))).
+  { rewrite acc_terms_ok; [cbn [a_nsecs a_secs a_months]; rewrite !Z.add_0_l; reflexivity|exact Hr|].
+    intros k Hk. cbn [a_nsecs a_secs a_months]. rewrite !Z.add_0_l. apply Hp. exact Hk. }
+  rewrite (parse_terms ts _ Hw Hv Ha). apply finish_ok; assumption.
+Qed.
